@@ -65,7 +65,8 @@ reading_validation_mode = RAISE (every element accessed), and numbers that are w
 that stores a floating-point ARGUMENT as a decimal string - SCImage pixel_spacing incl. from_ref_dataset,
 PixelMeasuresSequence, PlanePosition / PlaneOrientationSequence, VOI / modality LUT transformations,
 NumContentItem, TcoordContentItem, seg / pm with caller-made geometry, seg from an hd.Volume, the
-functional groups a VolumeGeometry hands out, GSPS windows - x numbers whose shortest repr has 17-23
+functional groups a VolumeGeometry hands out, GSPS windows, a tiled ParametricMap with caller-made plane
+positions (origin offsets, D120) - x numbers whose shortest repr has 17-23
 characters x the form the caller holds them in; oracle only), geom (create_affine_matrix_from_components /
 VolumeGeometry.from_components / Volume.from_components x 16 FORMS of the direction matrix x spacing x
 position / center x direction / patient orientation + every guard: [an argument changed, affine];
@@ -203,7 +204,7 @@ RULE = ('guard/valid: strings over a boundary alphabet (upper, lower, digit, spa
         'SR document, annotations, coded concept, content item) x history (plain, converted with / without copying, '
         'read, constructed) x operation (copy True / default / False, deepcopy, pickle), twice; conv also with an '
         'argument that already is an object of the class; valid also DS / IS: fixed / scientific / integer '
-        'numbers of 1..17 digits with signs, blanks, stray characters + the reprs of 1/3, 0.1+0.2 ...; ctor_num: 12 '
+        'numbers of 1..17 digits with signs, blanks, stray characters + the reprs of 1/3, 0.1+0.2 ...; ctor_num: 13 '
         'entry points x 16 numbers (repr of 3..23 characters: 1/3, 0.1+0.2, 2/7, 25.4/600, 1e16/3, 1e-7/3, pi, float32(0.1), '
         'e+22, e+100, subnormal) x form (float, numpy float64 / float32 scalar, array, list, tuple, int); geom: 3 entry '
         'points x 16 forms of the direction (nested / flat list / tuple, float64 C / F / view / transposed / flat / flat '
@@ -1626,6 +1627,31 @@ def _b_num(target):
 
             def make():
                 return geom.get_plane_positions() + [geom.get_plane_orientation(), geom.get_pixel_measures()]
+        elif target == 'pm_tiled':
+            # a tiled Parametric Map over a TILED_SPARSE slide image with plane positions made by the caller: the
+            # x / y / z offsets of the first tile become the TotalPixelMatrixOriginSequence of the map (D120: they
+            # were stored as raw floats - the DS objects of the plane positions keep the unrounded float value)
+            sm = synth.sm_tiled(4, 4, 2, 2, tiled_full=False, samples=3, origin=(0.5, 7.25), spacing=(0.5, 0.5))
+            pform = form
+            with np.errstate(over='ignore'):
+                if form == 'np32' and not all(np.isfinite(np.float32(v)) for v in (x, y, z)):
+                    pform = 'float'          # (no float32 holds the number: PlanePositionSequence refuses inf)
+            fx = lambda v: float(_num_scalar(v, pform))
+            first = owned(_num_seq([x, -y, z], pform))
+            second = owned(_num_seq([x + 1, -y, z], pform))
+            pps = [hd.PlanePositionSequence('SLIDE', image_position=first, pixel_matrix_position=(1, 1)),
+                   hd.PlanePositionSequence('SLIDE', image_position=second, pixel_matrix_position=(3, 1))]
+            arr = owned(np.array([rng.randint(0, 1000) for _ in range(8)], np.uint16).reshape(2, 2, 2))
+            mp = hd.pm.RealWorldValueMapping('l', 'e', codes.UCUM.NoUnits, (0, 1000), slope=1, intercept=0)
+            args += [sm, pps]
+            expect = {'XOffsetInSlideCoordinateSystem': [fx(x)], 'YOffsetInSlideCoordinateSystem': [fx(-y)],
+                      'ZOffsetInSlideCoordinateSystem': [fx(z)]}      # (first occurrence = the origin sequence)
+
+            def make():
+                return hd.pm.ParametricMap([sm], arr, hd.UID(), 1, hd.UID(), 1, 'm', 'mm', '1', 'sn',
+                                           contains_recognizable_visual_features=False,
+                                           real_world_value_mappings=[mp], window_center=500.0, window_width=1000.0,
+                                           plane_positions=pps)
         elif target == 'pr_window':
             cts = synth.ct_series(2, 4, 4)
             voi = [hd.pr.SoftcopyVOILUTTransformation(window_center=_num_scalar(x, form), window_width=_num_scalar(y, form))]
@@ -1642,6 +1668,10 @@ def _b_num(target):
 
         def post(obj, back):
             objs, backs = (obj, back) if isinstance(obj, list) else ([obj], [back])
+            if target == 'pm_tiled':
+                if 'TotalPixelMatrixOriginSequence' not in back:
+                    return 'TotalPixelMatrixOriginSequence is not in what was read back'
+                backs = [back.TotalPixelMatrixOriginSequence[0]]
             seen = {}
             for b in backs:
                 _ds_values(b, seen)
@@ -1661,7 +1691,7 @@ def _b_num(target):
 
 NUM_CONSTRUCTORS = {'num_' + t: _b_num(t) for t in (
     'sc', 'measures', 'plane_position', 'plane_orientation', 'voi', 'modality', 'num_item', 'seg_geom', 'pm_geom',
-    'seg_volume', 'volume_groups', 'pr_window')}
+    'seg_volume', 'volume_groups', 'pr_window', 'pm_tiled')}
 
 
 CONSTRUCTORS = {
@@ -3600,7 +3630,7 @@ def _gen_num_cases(rng, n):
     cases = []
     i = 0
     cheap = ('num_sc', 'num_measures', 'num_plane_position', 'num_plane_orientation', 'num_voi', 'num_modality',
-             'num_num_item')
+             'num_num_item', 'num_pm_tiled')
     forms = NUM_FORMS[:6]
     for t in sorted(NUM_CONSTRUCTORS):
         names = sorted(NUM_VALUES) if (t in cheap or n > 1) else ['half'] + rng.sample(NUM_LONG, 4)
